@@ -314,8 +314,13 @@ type vpHTTPW struct {
 	hdr http.Header
 	onHijack func()
 	tr  *vpTransport // the connection behind this response writer (nil: next queued transport)
+	status int
 }
 
 func (w *vpHTTPW) Header() http.Header         { return w.hdr }
-func (w *vpHTTPW) WriteHeader(int)             {}
+func (w *vpHTTPW) WriteHeader(c int) {
+	if w.status == 0 {
+		w.status = c
+	}
+}
 func (w *vpHTTPW) Write(b []byte) (int, error) { return len(b), nil }
